@@ -5,7 +5,7 @@ import workloads
 import gen
 import resp
 from client import Client
-from session import Session
+from session import Session, ServerDied
 import runner
 
 LEVEL = 'model_checking'
@@ -310,7 +310,51 @@ def run(ctx):
         cases += 1
     s.close_all()
     ctx.validate(tr, label='names')
+    cases += configured_passwords(ctx)
     ctx.extra_cov['distinct_cases'] = len(paths) + cases
+
+
+CONF_PASSWORDS = [b'tr0ub4dor #3 horse', b'a#b', b'#lead', b'two  spaces', b'semi;colon x', b'eq=sign y', b'back\\slash n', b'in"quote"s', b"in'quote's",
+                  b'dollar$HOME x', b'tab\there', b'caf\xc3\xa9 au lait', b'x' * 200, b'pw', b'UPPER lower']
+
+
+def configured_passwords(ctx):
+    """The password reaches the server the way a deployment sets it: through a configuration file read by ferrous' own parser.
+    Passwords with characters that configuration syntaxes tend to treat specially (space, #, quotes, =, ;, $, backslash, tab,
+    non-ASCII, long); the configured password is the rest of the requirepass line.  Every truncation at such a character, the
+    password with one byte less / more and in another case must be refused — and leave the connection unauthenticated —, the
+    exact bytes accepted."""
+    special = b' #"\'=;$\\\t'
+    n = 0
+    pool = CONF_PASSWORDS if not ctx.quick else CONF_PASSWORDS[:3] + [CONF_PASSWORDS[3 + (ctx.seed + i) % (len(CONF_PASSWORDS) - 3)] for i in range(4)]
+    for i, pw in enumerate(pool):
+        srv = ctx.new_server(name='conf', conf=b'# generated\nrequirepass ' + pw + b'\ndatabases 16\n')
+        tr = ctx.new_trace('confpw%d' % i)
+        tr.emit({'k': 'config', 'pass': list(pw)})
+        s = Session(srv, tr)
+        wrongs = {pw[:j] for j in range(1, len(pw)) if pw[j] in special or pw[j - 1] in special}
+        wrongs |= {pw[:-1], pw + b'x', pw + b' ', pw.upper(), pw.lower(), pw.split(b' ')[0], pw.replace(b' ', b''), b''}
+        wrongs.discard(pw)
+        try:
+            for w in sorted(wrongs):
+                c = s.open()
+                s.cmd(c, [b'AUTH', w])
+                s.cmd(c, [b'GET', b'k'])
+                s.close(c)
+                n += 1
+            c = s.open()
+            s.cmd(c, [b'GET', b'k'])
+            s.cmd(c, [b'AUTH', pw])
+            s.cmd(c, [b'SET', b'k', b'v'])
+            s.cmd(c, [b'GET', b'k'])
+            n += 1
+        except ServerDied:
+            tr.emit({'k': 'crash', 'status': srv.exit_status()})
+        s.close_all()
+        ctx.validate(tr, label='confpw%d' % i)
+        srv.kill()
+    ctx.extra_cov['configured_passwords'] = len(pool)
+    return n
 
 
 def replay(ctx, path):
